@@ -85,7 +85,7 @@ type FnCtx struct {
 	callSites int
 	og        *ogSpec
 	opKeys    map[ssa.Instruction]string
-	extPtrs   map[string]bool
+	extPtrs   map[string]Term // pointer term -> condition under which it is a dependency's (pointer, error) result
 	deadBlocks []*ssa.BasicBlock
 	ogResultTypes map[string]types.Type
 	decided   []*OblResult
@@ -196,9 +196,14 @@ func (c *FnCtx) whereNow() string {
 // constructed: the classic "value used although the call failed"); otherwise assumed.
 func (c *FnCtx) nilSafety(st *State, t Term) {
 	cond := Not(Eq(t, IntLit(0)))
-	if !(c.checks["nil"] || c.checks["all"]) && c.checks["extnil"] && c.extPtrs[t.S] {
-		c.safety("extnil", st, cond)
-		return
+	if !(c.checks["nil"] || c.checks["all"]) && c.checks["extnil"] {
+		if when, ok := c.extPtrs[t.S]; ok {
+			// only as far as the value is the dependency's result (after a join it may also come
+			// from elsewhere: that part stays assumed non-nil, like every other pointer)
+			c.safety("extnil", st, Implies(when, cond))
+			st.pc = c.vc.Name("pc", And(st.pc, cond))
+			return
+		}
 	}
 	c.safety("nil", st, cond)
 }
@@ -214,7 +219,7 @@ func (c *FnCtx) markExtResult(res SV, rt types.Type) {
 		return ok
 	}
 	if c.extPtrs == nil {
-		c.extPtrs = map[string]bool{}
+		c.extPtrs = map[string]Term{}
 	}
 	switch x := res.(type) {
 	case Tu:
@@ -236,7 +241,7 @@ func (c *FnCtx) markExtResult(res SV, rt types.Type) {
 			if errTag == nil {
 				continue
 			}
-			c.extPtrs[sc.T.S] = true
+			c.extPtrs[sc.T.S] = TTrue
 			if errTag != nil {
 				c.vc.Assert(Implies(Eq(*errTag, IntLit(0)), Not(Eq(sc.T, IntLit(0)))))
 				c.assume("A-value-or-error: a dependency returning (pointer, error) returns a non-nil pointer when the error is nil")
